@@ -1,7 +1,7 @@
 (* C10 — Delayed reactions deliver their delayed part exactly once, after the delay. *)
 From Coq Require Import ZArith Reals List Bool Arith.
 From BS Require Import Base.Arith Model.Term Model.Interface Model.Rules Model.Random Model.Queue Model.SSA
-                       Proofs.DelayProofs Proofs.QueueProofs Proofs.QueueHistory Proofs.DelayAccounting.
+                       Proofs.DelayProofs Proofs.QueueProofs Proofs.QueueHistory Proofs.DelayAccounting Proofs.DelayVolumeAccounting.
 Import ListNotations.
 
 (* One iteration of the delay-capable loop (any arithmetic, stream, network): on the rule-updated
@@ -66,6 +66,18 @@ Theorem C10_whole_run_accounting :
     (forall r, (r < length (si_props (sm_if s)))%nat -> n r = (d r + sumN (fun off => pq off r) ncols)%nat).
 Proof. intros s ncols fuel gfuel qdt qt ts u pos st H1 H2 H3. exact (delay_run_accounting s H1 H2 H3 ncols fuel gfuel qdt qt ts u pos st). Qed.
 
+(* The same books for the delay + volume simulator (any volume model): nothing is lost or duplicated there either. *)
+Theorem C10_delay_volume_whole_run_accounting :
+  forall (s : sim R) (vm : volmodel (F:=R)) ncols fuel gfuel V0 qdt qt ts u pos st,
+  sm_rules s = [] -> length (sm_x0 s) = length (si_S (sm_if s)) -> length (si_S (sm_if s)) = length (si_Sd (sm_if s)) ->
+  (0 < ncols)%nat ->
+  dvssa_simulate ArithR (2 * PI)%R fuel gfuel s vm V0 (q_make ArithR 0%R (length (si_props (sm_if s))) ncols qdt qt) ts u pos = Done st ->
+  Forall (lattice s) (dv_rows st) /\
+  exists n d pq, at_point s (dv_x st) n d /\
+    (forall off r, (off < ncols)%nat -> (r < length (si_props (sm_if s)))%nat -> q_pending 0%R (dv_q st) off r = INR (pq off r)) /\
+    (forall r, (r < length (si_props (sm_if s)))%nat -> n r = (d r + sumN (fun off => pq off r) ncols)%nat).
+Proof. intros s vm ncols fuel gfuel V0 qdt qt ts u pos st H1 H2 H3. exact (delay_volume_run_accounting s vm H1 H2 H3 ncols fuel gfuel V0 qdt qt ts u pos st). Qed.
+
 (* Not mechanised (C10_partial): rule-carrying models in the whole-run statement, equality in distribution
    with the plain simulator at zero delay (rests on memorylessness, C05), and that Box-Muller /
    Marsaglia-Tsang have the Normal / Gamma laws (classical analysis). *)
@@ -76,3 +88,4 @@ Print Assumptions C10_fixed_delay.
 Print Assumptions C10_box_muller_form.
 Print Assumptions C10_marsaglia_tsang_form.
 Print Assumptions C10_whole_run_accounting.
+Print Assumptions C10_delay_volume_whole_run_accounting.
